@@ -313,13 +313,6 @@ func geoRatio(v *big.Int, y *big.Float, extra *big.Float) float64 {
 	return df / bound
 }
 
-type stats struct {
-	maxArith   float64
-	maxGeo     float64
-	maxGeoStmt float64
-	maxRecip   float64
-}
-
 func (w *World) maxExtra(key string, v float64) {
 	cur, _ := w.R.Extra[key].(float64)
 	if v > cur {
